@@ -229,7 +229,16 @@ class _TagMeta(type):
 
     def __call__(cls, keyword, attributes, **kwargs):
         if ":" in keyword:
-            ns, defname = keyword.split(":")
+            try:
+                ns, defname = keyword.split(":")
+            except ValueError:
+                raise exceptions.CompileException(
+                    "Invalid tag name: '%s'" % keyword,
+                    source=kwargs["source"],
+                    lineno=kwargs["lineno"],
+                    pos=kwargs["pos"],
+                    filename=kwargs["filename"],
+                )
             return type.__call__(
                 CallNamespaceTag, ns, defname, attributes, **kwargs
             )
